@@ -486,6 +486,9 @@ pub mod watchdog {
     pub type Describe<'a> = dyn Fn() -> (String, String, Value) + Sync + 'a;
 
     struct Slot {
+        /// how many watchdog limits this case may take (1 for a single case, more for the
+        /// catch-all guard around a whole job)
+        factor: u32,
         since: Instant,
         // lifetime-erased pointer to a closure on the worker's stack; only dereferenced while the
         // slot lock is held and the worker is still inside `guard`
@@ -497,7 +500,7 @@ pub mod watchdog {
 
     thread_local! {
         static MY: Arc<Mutex<Slot>> = {
-            let s = Arc::new(Mutex::new(Slot { since: Instant::now(), desc: None }));
+            let s = Arc::new(Mutex::new(Slot { factor: 1, since: Instant::now(), desc: None }));
             SLOTS.get_or_init(|| Mutex::new(vec![])).lock().unwrap().push(s.clone());
             s
         };
@@ -506,16 +509,36 @@ pub mod watchdog {
     /// run `f` as one case; if it does not return within the watchdog limit the watchdog thread
     /// reports `desc()` as a violation and ends the process
     pub fn guard<R>(desc: &Describe<'_>, f: impl FnOnce() -> R) -> R {
+        guard_with(1, desc, f)
+    }
+
+    /// like `guard`, with `factor` times the limit: the catch-all around a whole job of `parallel`,
+    /// so that a spin in code that no case-level guard surrounds still ends with a verdict
+    pub fn guard_with<R>(factor: u32, desc: &Describe<'_>, f: impl FnOnce() -> R) -> R {
         let ptr: *const Describe<'_> = desc;
         // erase the lifetime: the pointer is cleared before this function returns
         let ptr: *const Describe<'static> = unsafe { std::mem::transmute(ptr) };
-        MY.with(|m| {
+        // guards nest (an explorer's guard around a self-guarding runner): the outer one is
+        // restored, with its own starting time, when the inner one ends
+        let prev = MY.with(|m| {
             let mut s = m.lock().unwrap();
+            let prev = (s.since, s.desc, s.factor);
             s.since = Instant::now();
             s.desc = Some(ptr);
+            s.factor = factor;
+            prev
         });
         let r = f();
-        MY.with(|m| m.lock().unwrap().desc = None);
+        MY.with(|m| {
+            let mut s = m.lock().unwrap();
+            s.since = prev.0;
+            s.desc = prev.1;
+            s.factor = prev.2;
+            if prev.1.is_some() {
+                // the time the inner case took is not charged to the outer one
+                s.since = Instant::now();
+            }
+        });
         r
     }
 
@@ -529,7 +552,7 @@ pub mod watchdog {
             for s in slots {
                 let g = s.lock().unwrap();
                 if let Some(p) = g.desc {
-                    if g.since.elapsed() > limit {
+                    if g.since.elapsed() > limit * g.factor {
                         let (sig, summary, scenario) = unsafe { (*p)() };
                         let sig = format!("no-progress:{sig}");
                         let summary = format!("a single case did not return within {limit:?} (spin without progress): {summary}");
